@@ -609,9 +609,11 @@ class SlotNode(BaseNode):
             return context
 
         registry_settings = component_ctx.registry.settings
-        if registry_settings.context_behavior == ContextBehavior.DJANGO:
+        # NOTE: The `only` flag isolates the component the same way as the "isolated" mode does. The context
+        # inside such component does not contain the outer variables, so the fill could not use them.
+        if registry_settings.context_behavior == ContextBehavior.DJANGO and not component_ctx.only:
             return context
-        elif registry_settings.context_behavior == ContextBehavior.ISOLATED:
+        elif registry_settings.context_behavior in (ContextBehavior.ISOLATED, ContextBehavior.DJANGO):
             outer_context = component_ctx.outer_context
             return outer_context if outer_context is not None else Context()
         else:
